@@ -15,6 +15,9 @@ use tokio::sync::{mpsc, Notify};
 
 pub(crate) const MAX_RAW_HEADERS_SIZE: usize = 1024;
 pub(crate) const MAX_HEADERS_NUM: usize = 32;
+/// How long a session which has been shut down keeps discarding the client's input
+/// (see [`Http1Codec::graceful_shutdown`])
+const LINGERING_CLOSE_TIMEOUT: std::time::Duration = std::time::Duration::from_secs(5);
 
 pub(crate) struct Http1Codec<IO> {
     state: State,
@@ -256,7 +259,16 @@ where
         }
         self.transport_stream.flush().await?;
         let _ = self.upload_tx.reserve().await;
-        self.transport_stream.shutdown().await
+        self.transport_stream.shutdown().await?;
+        // Closing a socket which still has unread input makes the kernel reset the connection,
+        // and the reset destroys the bytes written above which are still on their way to the
+        // client. So discard what the client sends until it closes its side as well.
+        let mut discarded = [0; 4096];
+        let _ = tokio::time::timeout(LINGERING_CLOSE_TIMEOUT, async {
+            while matches!(self.transport_stream.read(&mut discarded).await, Ok(n) if n > 0) {}
+        })
+        .await;
+        Ok(())
     }
 
     fn protocol(&self) -> Protocol {
